@@ -760,6 +760,108 @@ def judge_builder(case, res):
     return None
 
 
+# ------------------------------------------------------------------ Form-driven LayoutBuilder (LayoutBuilder.tla)
+_STRFORM = {"class": "ListOffsetArray64", "offsets": "i64", "parameters": {"__array__": "string"},
+            "content": {"class": "NumpyArray", "primitive": "uint8", "parameters": {"__array__": "char"}}}
+
+
+def lb_form_json(F, pick=None, counter=None):
+    """model form -> Form JSON of /repo (every node gets its own form_key: the generated AwkwardForth names derive from it)"""
+    counter = counter if counter is not None else [0]
+    counter[0] += 1
+    key = "n%d" % counter[0]
+    f = F["f"]
+    if f == "num":
+        out = {"class": "NumpyArray", "primitive": F["dt"], "inner_shape": []}
+    elif f == "str":
+        out = json.loads(json.dumps(_STRFORM))
+        out["content"]["form_key"] = key + "c"
+    elif f == "list":
+        out = {"class": "ListOffsetArray64", "offsets": "i64", "content": lb_form_json(F["c"], pick, counter)}
+    elif f == "reg":
+        out = {"class": "RegularArray", "size": F["n"], "content": lb_form_json(F["c"], pick, counter)}
+    elif f == "opt":
+        out = {"class": "IndexedOptionArray64", "index": "i64", "content": lb_form_json(F["c"], pick, counter)}
+    elif f == "wrap":
+        c = lb_form_json(F["c"], pick, counter)
+        out = {"indexed": {"class": "IndexedArray64", "index": "i64", "content": c},
+               "bytemasked": {"class": "ByteMaskedArray", "mask": "i8", "valid_when": True, "content": c},
+               "bitmasked": {"class": "BitMaskedArray", "mask": "u8", "valid_when": True, "lsb_order": True, "content": c},
+               "unmasked": {"class": "UnmaskedArray", "content": c}}[F["k"]]
+    elif f == "rec":
+        out = {"class": "RecordArray", "contents": {k: lb_form_json(c, pick, counter) for k, c in zip(F["ks"], F["cs"])}}
+    elif f == "union":
+        out = {"class": "UnionArray8_64", "tags": "i8", "index": "i64", "contents": [lb_form_json(c, pick, counter) for c in F["cs"]]}
+    else:
+        raise ValueError("form " + repr(F))
+    out["form_key"] = key
+    return out
+
+
+def steps_layoutbuilder(case, pick):
+    return [{"op": "layoutbuilder_run", "form": json.dumps(lb_form_json(case["form"])), "cmds": [_bcmd(c) for c in case["cmds"]],
+             "initial": pick([8, 16, 1024])}]
+
+
+def lb_features(F, above=None, out=None):
+    """structural features of a model form that the known findings of the LayoutBuilder are keyed on"""
+    out = out if out is not None else set()
+    f = F["f"]
+    if f in ("list", "str") and above in ("reg", "wrap", "union"):
+        out.add("list-below-" + above)               # begin_list is not routed through these nodes
+    if f == "str" and above == "rec":
+        out.add("str-below-rec")                     # string() to a record field does not open the field's list
+    if f == "reg" and above == "list":
+        out.add("reg-below-list")                    # the list counts the leaves of a RegularArray below it, not its rows
+    for c in ([F["c"]] if "c" in F else F.get("cs", [])):
+        lb_features(c, f, out)
+    return out
+
+
+def judge_layoutbuilder(case, res):
+    if not res:
+        return "no result"
+    r = res[0]
+    if r.get("ok") != 1:
+        if r.get("harness"):
+            return "layoutbuilder_run failed: %r" % r.get("harness")
+        if r.get("exc") in ("ValueError", "RuntimeError"):
+            # the builder may refuse a Form at construction -- but not one whose first command it is specified to accept
+            return None if case["obs"][0]["ok"] in (0, 3) else "construction refused: %s" % r.get("msg")
+        return "construction: not an ordinary exception: %s %s" % (r.get("exc"), r.get("msg"))
+    steps = r["steps"]
+    for i, exp in enumerate(case["obs"]):
+        cname = case["cmds"][i]["c"]
+        if exp["ok"] == 3:
+            break
+        if i >= len(steps):
+            return "command %d (%s): no observation" % (i, cname)
+        got = steps[i]
+        if exp["ok"] == 0:
+            if got.get("ok") == 1:
+                return "command %d (%s): a datum of the wrong primitive type was accepted, snapshot %s" % (i, cname, got.get("json"))
+            if got.get("exc") not in ("ValueError", "RuntimeError"):
+                return "command %d: not an ordinary exception: %s" % (i, got.get("exc"))
+            break
+        if got.get("ok") != 1:
+            return "command %d (%s): a command that fits the Form raised %s: %s" % (i, cname, got.get("exc"), got.get("msg"))
+        if got.get("formsame") != 1:
+            return "command %d: the builder's form() is no longer the Form it was made from" % i
+        if exp["ok"] == 4:
+            continue                      # an element is half-filled: the snapshot is not judged
+        if got.get("valid", "") != "":
+            return "command %d (%s): snapshot fails validity: %r" % (i, cname, got.get("valid"))
+        try:
+            val = json.loads(got["json"])
+        except Exception as e:
+            return "command %d: snapshot json not parseable: %s" % (i, e)
+        if not values_equal(val, vjson_to_py(exp["v"])):
+            return "command %d (%s): snapshot %s differs from the appended values" % (i, cname, got["json"])
+    if r.get("immutable") != 1:
+        return "an earlier snapshot changed: %s" % r.get("diff")
+    return None
+
+
 # ------------------------------------------------------------------ AwkwardForth programs (Forth.tla)
 def forth_src(p):
     out = []
